@@ -196,3 +196,10 @@ package proxy
 //@   assigns nothing
 //@   ensures nopanic
 //@   ensures result == respHeader(rw.w)
+//@
+//@ // ---- C09: the two directions of a websocket tunnel share no memory --------------------------------------------
+//@ // each direction runs in its own goroutine; it may consume its source and feed its destination and report on the
+//@ // result channel, and writes no memory visible to the other direction (in particular no shared buffer)
+//@ func newWSHandler$1$2
+//@   props C09
+//@   assigns rd, wr
